@@ -50,6 +50,7 @@ type Unit struct {
 	Validate  int      `json:"validate"` // number of translator-validation vectors (quick)
 	NoValidate bool    `json:"no_validate"`
 	NoMerge   bool     `json:"no_merge"`
+	Race      bool     `json:"race"` // happens-before data race detection on repository code
 	StressRuns int     `json:"stress_runs"` // native runs attempted to reproduce an engine-confirmed schedule-dependent violation
 	NoDivAxiom bool    `json:"no_div_axiom"`
 	SchedFIFO bool     `json:"sched_fifo"` // at forced switches run the lowest-numbered runnable goroutine instead of forking over all (sequential harnesses with incidental goroutines)
